@@ -399,6 +399,7 @@ class Engine:
         self.maxdepth = maxdepth
         self.inline_small = inline_small
         self._inlining_names = set()
+        self._const_busy = set()
         self._idx = {}
         self._memo = {}
         self._ret = {}
@@ -433,6 +434,15 @@ class Engine:
         return self._call(body, bb, term, 0)
 
     def const(self, body, o):
+        if 'item' in o and 'promoted' not in o and 'int' not in o and 'str' not in o and ('bytes' not in o or o.get('ty', '').startswith('&')) and o['item'] in self.facts.consts and o['item'] not in self._const_busy:
+            # a crate-local named constant is its value
+            self._const_busy.add(o['item'])
+            try:
+                v = self.return_term(self.facts.consts[o['item']])
+            finally:
+                self._const_busy.discard(o['item'])
+            if v.tag not in ('opaque',):
+                return v
         if 'promoted' in o:
             pb = self.facts.promoted.get((o['item'], o['promoted']))
             if pb is not None:
@@ -734,6 +744,26 @@ class Engine:
             return T('flatten', args[0])
         if decl == 'std::iter::Iterator::flat_map':
             return T('flatten', T('map', args[0], args[1]))
+        if decl == 'std::iter::Iterator::take' and len(args) == 2:
+            src = args[0]
+            while src.tag == 'mut':
+                src = src[1]
+            if src.tag == 'call' and src[1] in ('std::iter::repeat_with', 'core::iter::repeat_with') and src[2]:
+                # n values produced by f: a collection defined by its length, not a truncated view of another one
+                f0 = src[2][0]
+                if f0.tag == 'fnitem':
+                    # keep the construction site: two vectors built the same way are still two vectors
+                    return T('repeatv', T('call', f0[1], (), src[3]), args[1])
+                return T('repeatv', self.apply(f0, ()), args[1])
+            if src.tag == 'repeat':
+                return T('repeatv', src[1], args[1])
+        if decl in ('digest::Update::chain', 'digest::Digest::chain_update') and len(args) == 2:
+            # builder style: the hasher after absorbing the data
+            ev = T('ev', 'call', 'digest::Update::update', (args[1],), site)
+            h = args[0]
+            if h.tag == 'mut':
+                return T('mut', h[1], tuple(h[2]) + (ev,))
+            return T('mut', h, (ev,))
         if decl in ADAPT:
             return T('adapt', _last(decl), *args)
         if decl in ARITH:
